@@ -64,6 +64,9 @@ theories/Width.vos theories/Width.vok theories/Width.required_vos: theories/Widt
 theories/Run.vo theories/Run.glob theories/Run.v.beautified theories/Run.required_vo: theories/Run.v theories/Base.vo theories/Gap.vo theories/Width.vo theories/Cache.vo theories/Dom.vo theories/DomSpec.vo theories/Fringe.vo theories/FringeProofs.vo theories/Fringe2.vo theories/DP.vo theories/Mdd.vo theories/Viz.vo theories/Table.vo theories/Solver.vo theories/Par.vo
 theories/Run.vio: theories/Run.v theories/Base.vio theories/Gap.vio theories/Width.vio theories/Cache.vio theories/Dom.vio theories/DomSpec.vio theories/Fringe.vio theories/FringeProofs.vio theories/Fringe2.vio theories/DP.vio theories/Mdd.vio theories/Viz.vio theories/Table.vio theories/Solver.vio theories/Par.vio
 theories/Run.vos theories/Run.vok theories/Run.required_vos: theories/Run.v theories/Base.vos theories/Gap.vos theories/Width.vos theories/Cache.vos theories/Dom.vos theories/DomSpec.vos theories/Fringe.vos theories/FringeProofs.vos theories/Fringe2.vos theories/DP.vos theories/Mdd.vos theories/Viz.vos theories/Table.vos theories/Solver.vos theories/Par.vos
+theories/ExSpec.vo theories/ExSpec.glob theories/ExSpec.v.beautified theories/ExSpec.required_vo: theories/ExSpec.v 
+theories/ExSpec.vio: theories/ExSpec.v 
+theories/ExSpec.vos theories/ExSpec.vok theories/ExSpec.required_vos: theories/ExSpec.v 
 theories/Props/C17.vo theories/Props/C17.glob theories/Props/C17.v.beautified theories/Props/C17.required_vo: theories/Props/C17.v theories/Base.vo theories/Gap.vo
 theories/Props/C17.vio: theories/Props/C17.v theories/Base.vio theories/Gap.vio
 theories/Props/C17.vos theories/Props/C17.vok theories/Props/C17.required_vos: theories/Props/C17.v theories/Base.vos theories/Gap.vos
